@@ -223,6 +223,86 @@ def _chunk_task(args):
     return res
 
 
+# ------------------------------------------------------------------------------------------ juxtaposition family
+# A bare unary 'not' applies to the operand that FOLLOWS it wherever operands stand side by side: argument lists, operand
+# lists of prefix operators, cond clauses, array / struct literals, statement slots.  Each element: (what, fully
+# parenthesised spelling, bare spelling, result type, value for a=3 b=4 u=true w=false).
+JUXTA_PRE = ("struct TB { f: bool, g: int }\nfn f2(a: int, b: bool) -> int { if b { return a } else { return (- 0 a) } }\nshadow f2 { assert true }\n"
+             "fn g2(b: bool, a: int) -> int { if b { return a } else { return (- 0 a) } }\nshadow g2 { assert true }\n"
+             "fn f3(a: int, b: bool, c: bool) -> int { if (and b c) { return a } else { return 0 } }\nshadow f3 { assert true }\n")
+JUXTA = [
+    ("last argument", "return (f2 a (not @U))", "return (f2 a not @U)", "int", lambda u, w: 3 if not u else -3),
+    ("first argument", "return (g2 (not @U) a)", "return (g2 not @U a)", "int", lambda u, w: 3 if not u else -3),
+    ("two arguments in a row", "return (f3 a (not @U) (not @W))", "return (f3 a not @U not @W)", "int", lambda u, w: 3 if (not u and not w) else 0),
+    ("right operand of and", "return (and @W (not @U))", "return (and @W not @U)", "bool", lambda u, w: w and not u),
+    ("left operand of or", "return (or (not @U) @W)", "return (or not @U @W)", "bool", lambda u, w: (not u) or w),
+    ("right operand of ==", "return (== @U (not @W))", "return (== @U not @W)", "bool", lambda u, w: u == (not w)),
+    ("value of a cond clause", "return (cond (@U (not @W)) (else @W))", "return (cond (@U not @W) (else @W))", "bool", lambda u, w: (not w) if u else w),
+    ("condition of a cond clause", "return (cond ((not @U) @W) (else @U))", "return (cond (not @U @W) (else @U))", "bool", lambda u, w: w if not u else u),
+    ("tail expression after a let", "let t: bool = @W\n    (not t)", "let t: bool = @W\n    not t", "bool", lambda u, w: not w),
+    ("array literal element", "let xs: array<bool> = [@U, (not @W)]\n    return (at xs 1)", "let xs: array<bool> = [@U, not @W]\n    return (at xs 1)", "bool", lambda u, w: not w),
+    ("struct literal field", "let s: TB = TB { f: (not @U), g: a }\n    return s.f", "let s: TB = TB { f: not @U, g: a }\n    return s.f", "bool", lambda u, w: not u),
+    ("return value", "return (not @U)", "return not @U", "bool", lambda u, w: not u),
+    ("if condition", "if (not @U) { return 1 } else { return 2 }", "if not @U { return 1 } else { return 2 }", "int", lambda u, w: 1 if not u else 2),
+    ("while condition", "while (not @U) { return 1 }\n    return 2", "while not @U { return 1 }\n    return 2", "int", lambda u, w: 1 if not u else 2),
+    ("let initialiser", "let t: bool = (not @U)\n    return t", "let t: bool = not @U\n    return t", "bool", lambda u, w: not u),
+    ("set value", "let mut t: bool = @W\n    set t (not @U)\n    return t", "let mut t: bool = @W\n    set t not @U\n    return t", "bool", lambda u, w: not u),
+    ("double not", "return (not (not @U))", "return not not @U", "bool", lambda u, w: u),
+    ("argument that is not of a call", "return (f2 a (not (== a b)))", "return (f2 a not (== a b))", "int", lambda u, w: 3),
+    ("argument that is not of a field", "let s: TB = TB { f: @U, g: a }\n    return (f2 a (not s.f))", "let s: TB = TB { f: @U, g: a }\n    return (f2 a not s.f)", "int", lambda u, w: 3 if not u else -3),
+]
+JUXTA_OPERANDS = [("u", "w"), ("w", "u"), ("(== a 3)", "(< b a)"), ("true", "false")]
+
+
+def juxta_programs():
+    """-> (items, prefix program text, bare program text); items = [(fn name, what, expected text)]"""
+    vals = {"u": True, "w": False, "(== a 3)": True, "(< b a)": False, "true": True, "false": False}
+    items = []
+    texts = {"p": [JUXTA_PRE], "b": [JUXTA_PRE]}
+    for k, (what, pfx, bare, t, f) in enumerate(JUXTA):
+        for j, (U, W) in enumerate(JUXTA_OPERANDS):
+            name = "j%d_%d" % (k, j)
+            for tag, body in (("p", pfx), ("b", bare)):
+                texts[tag].append("fn %s(a: int, b: int, u: bool, w: bool) -> %s {\n    %s\n}\nshadow %s { assert true }\n" % (name, t, body.replace("@U", U).replace("@W", W), name))
+            v = f(vals[U], vals[W])
+            items.append((name, "%s, operands %s / %s" % (what, U, W), ("true" if v else "false") if isinstance(v, bool) else str(v)))
+    main = "fn main() -> int {\n" + "".join("    (println (%s 3 4 true false))\n" % it[0] for it in items) + "    return 0\n}\nshadow main { assert true }\n"
+    return items, "".join(texts["p"]) + main, "".join(texts["b"]) + main
+
+
+def juxta_family(rep, tree, work, optable):
+    items, ptxt, btxt = juxta_programs()
+    paths = {}
+    diag = {}
+    for tag, txt in (("p", ptxt), ("b", btxt)):
+        src = os.path.join(work, "juxta_%s.nano" % tag)
+        with open(src, "w") as f:
+            f.write(txt)
+        out = src[:-5] + ".nvm"
+        rc, o, e = common.run([tree.exe("nano_virt"), src, "--emit-nvm", "-o", out], timeout=120, cwd=work)
+        paths[tag] = out if rc == 0 else None
+        diag[tag] = (rc, e.decode(errors="replace")[-1500:])
+    files = {"parenthesised.nano": ptxt, "bare.nano": btxt}
+    if not paths["p"]:
+        raise common.HarnessError("the fully parenthesised juxtaposition program does not compile: %s" % diag["p"][1][-300:])
+    if not paths["b"]:
+        files["diagnostics.txt"] = diag["b"][1]
+        rep.violation("c07:juxta:compile", files, "bare unary 'not' next to other operands: the bare spelling does not compile while the parenthesised one does: %s" % (
+            diag["b"][1].strip().splitlines()[0][:200] if diag["b"][1].strip() else "rc=%s" % diag["b"][0]))
+        return len(items)
+    cp = fn_code_by_name(paths["p"], optable)
+    cb = fn_code_by_name(paths["b"], optable)
+    rc, o, e = common.run([tree.exe("nano_virt"), os.path.join(work, "juxta_p.nano"), "--run"], timeout=120, cwd=work)
+    lines = o.decode(errors="replace").split("\n")
+    for k, (name, what, exp) in enumerate(items):
+        rep.count("transitions", 2)
+        if name not in cp or cp.get(name) != cb.get(name):
+            rep.violation("c07:juxta:" + what.split(",")[0], files, "bare 'not' as %s compiles to different code than the parenthesised spelling (function %s)" % (what, name))
+        elif k >= len(lines) or lines[k] != exp:
+            rep.violation("c07:juxta:value:" + what.split(",")[0], files, "%s (function %s): the program prints %r, the reference value is %r" % (what, name, lines[k] if k < len(lines) else None, exp))
+    return len(items)
+
+
 def run(tier):
     rep = common.Report("C07", tier)
     tree = common.build_tree("plain")
@@ -265,6 +345,7 @@ def run(tier):
     jobs.append((tree.root, tree.exe("nano_virt"), work, len(jobs), longfile, base_long))
     compared = 0
     valued = 0
+    rep.coverage["juxtaposition_spellings"] = juxta_family(rep, tree, work, optable)
     progp = nr.Program()
     progp.add_struct("TN", [("y", I), ("z", B)])
     progp.add_struct("TP", [("x", I), ("ok", B), ("n", "TN")])
